@@ -198,11 +198,36 @@ class Axioms:
             a, m = node(w)[2], node(w)[3]
             k = app('fmod_k', 'Int', a, m)
             kr = T.mk('Real', 'to_real', k)
+            if not is_sym(m) and Fraction(m) > 0:
+                # constant positive modulus (a full turn): linear mixed integer/real contract, no case split
+                s.add('fmod', conj([
+                    cmp('=', w, arith('-', a, arith('*', kr, m))), cmp('<', w, m), cmp('>', w, neg(m)),
+                    implies(cmp('>=', a, 0), cmp('>=', w, 0)), implies(cmp('<=', a, 0), cmp('<=', w, 0))]))
+                continue
             s.add('fmod', implies(cmp('!=', m, 0), conj([
                 cmp('=', w, arith('-', a, arith('*', kr, m))),
                 cmp('<', absv(w), absv(m)),
                 implies(cmp('>=', a, 0), cmp('>=', w, 0)),
                 implies(cmp('<=', a, 0), cmp('<=', w, 0))])))
+        for w in apps.get('fpfmod', []):
+            if not s.once(('fpfmod', w)):
+                continue
+            a, m = node(w)[2], node(w)[3]
+            fs = sort_of(w)
+            fin = lambda x: band(bnot(T.mk('Bool', 'fp.isNaN', x)), bnot(T.mk('Bool', 'fp.isInfinite', x)))
+            ab = lambda x: T.mk(fs, 'fp.abs', x) if is_sym(x) else abs(float(x))
+            zero = 0.0
+            # IEEE fmod (C fmod / Rust %): for finite a and finite non-zero m the result is finite, |r| < |m|, and has the sign of a
+            if not is_sym(m):
+                if float(m) == 0.0 or float(m) != float(m) or float(m) in (float('inf'), float('-inf')):
+                    continue
+                pre = fin(a) if is_sym(a) else True
+            else:
+                pre = band(band(fin(a), fin(m)), bnot(T.mk('Bool', 'fp.eq', m, zero)))
+            s.add('fpfmod', implies(pre, conj([
+                fin(w), T.mk('Bool', 'fp.lt', ab(w), ab(m)),
+                implies(T.mk('Bool', 'fp.geq', a, zero), T.mk('Bool', 'fp.geq', w, zero)),
+                implies(T.mk('Bool', 'fp.leq', a, zero), T.mk('Bool', 'fp.leq', w, zero))])))
         for w in apps.get('ulps_eq', []):
             if not s.once(('ulps', w)):
                 continue
